@@ -676,7 +676,16 @@ def lexical_passthrough(ctx: Ctx, rule):
                              "%s, the parser registered for %s, returns %s: the lexical form is converted through another type on the way" % (pf.name, k.local if isinstance(k, QN) else k, norm(b)[:50]),
                              "Literal('9007199254740993', xsd:long) is stored as 9007199254740992 (int(float(..)) rounds through a double): a direct assignment and the JSON/XML reload store different ints")
     # (2) datetime coercers are siblings: on a string they return dateutil's parse of the unmodified string, the value itself, or None
-    coercers = sorted(datetime_coercers_loose(ctx))
+    coercers = set(datetime_coercers_loose(ctx))
+    # the parser registered for xsd:dateTime in the datatype table is a coercer whatever it calls
+    try:
+        tbl = ctx.const(M, "XSD_DATATYPE_PARSERS")
+    except AnalysisError:
+        tbl = {}
+    for k, v in (tbl.items() if isinstance(tbl, dict) else []):
+        if isinstance(k, QN) and k.local == "dateTime" and isinstance(v, FuncRef) and v.qual.startswith(M + ".") and v.qual.count(".") == 2:
+            coercers.add(v.qual.rsplit(".", 1)[1])
+    coercers = sorted(coercers)
     if len(coercers) < 2:
         raise AnalysisError("datetime coercers not found (%s)" % coercers)
     for name in coercers:
@@ -989,3 +998,66 @@ for _p, _r, _d in (("C05", "C05.R15", "every supplied attribute is stored; xsd:b
                    ("C08", "C08.R14", "merging processes every attribute of every record"), ("C01", "C01.R16", "a kept Literal's datatype is written under a prefix its container declares for it")):
     RULES.setdefault(_p, []).append(Rule(_r, "the normaliser processes every pair (no break); parse_boolean covers {true,1}/{false,0}; the rebuilt Literal uses the homed datatype", 4, normaliser_micro, "F-PATH", _d))
 
+
+
+# ------------------------------------------------------------------------------------------ C11.R22 / C05.R16: a typed time reaches the time arm
+def typed_time_rule(ctx: Ctx, rule):
+    """The readers hand `add_attributes` what they found: the PROV-XML reader builds `Literal(text, xsd:dateTime)` for
+    `<prov:time xsi:type="xsd:dateTime">`, a form the schema allows.  On the time arm of the normaliser the value goes to a string
+    parser (dateutil), which raises a built-in TypeError for anything but a string.  Necessary for "a library error or a document":
+    before a coercer is called on that arm, a Literal is unwrapped or refused (an `isinstance(value, Literal)` test on the coerced
+    name in the normaliser), or the coercer itself turns TypeError into its None answer."""
+    from ..inline import inlined_function
+    res = RuleResult()
+    norm_q, _sites, _mm = find_normaliser(ctx)
+    nf = inlined_function(ctx, norm_q, exclude=frozenset({ctx.literal_converter()}))
+    coercers = set(datetime_coercers_loose(ctx))
+    try:
+        tbl = ctx.const(M, "XSD_DATATYPE_PARSERS")
+    except AnalysisError:
+        tbl = {}
+    for k, v in (tbl.items() if isinstance(tbl, dict) else []):
+        if isinstance(k, QN) and k.local == "dateTime" and isinstance(v, FuncRef):
+            coercers.add(v.qual.rsplit(".", 1)[1])
+    calls = [c for c in calls_in(nf.node) if isinstance(c.func, ast.Name) and c.func.id in coercers and c.args]
+    if not calls:
+        raise AnalysisError("the normaliser calls none of the datetime coercers %s" % sorted(coercers))
+    lit_cls = M + ".Literal"
+    for c in calls:
+        arg = c.args[0]
+        an = arg.id if isinstance(arg, ast.Name) else None
+        # (i) a Literal test on that name in the normaliser
+        tested = False
+        for t in walk_function(nf.node):
+            if isinstance(t, ast.Call) and call_name(t) == "isinstance" and len(t.args) == 2 and an and isinstance(t.args[0], ast.Name) and t.args[0].id == an:
+                types = t.args[1].elts if isinstance(t.args[1], ast.Tuple) else [t.args[1]]
+                for ty in types:
+                    r = ctx.p.resolve_dotted(nf.module, ty) if dotted(ty) else None
+                    if r and r[0] == "class" and r[1] == lit_cls:
+                        tested = True
+        # (ii) the coercer answers None for a non-string
+        cq = M + "." + c.func.id
+        cf = ctx.p.functions.get(cq)
+        tolerant = False
+        if cf is not None:
+            for tr in walk_function(cf.node):
+                if isinstance(tr, ast.Try):
+                    for h in tr.handlers:
+                        names = [norm(x) for x in (h.type.elts if isinstance(h.type, ast.Tuple) else [h.type])] if h.type is not None else ["<bare>"]
+                        if any(nm in ("<bare>", "Exception", "TypeError", "BaseException") for nm in names):
+                            tolerant = True
+            if any(isinstance(t, ast.Call) and call_name(t) == "isinstance" and len(t.args) == 2 and "str" in norm(t.args[1]) for t in walk_function(cf.node)) and not any(isinstance(x, ast.Return) and isinstance(x.value, ast.Call) and _is_dateutil_parse(ctx, cf, x.value) and not any(isinstance(t, ast.If) and any(y is x for b in t.body for y in ast.walk(b)) for t in walk_function(cf.node)) for x in walk_function(cf.node)):
+                tolerant = True  # parses only under an isinstance(.., str) test
+        ok = tested or tolerant
+        res.ob("time arm: %s - a Literal is unwrapped / refused before it: %s; the coercer answers a non-string without a built-in error: %s" % (norm(c)[:50], tested, tolerant))
+        if not ok:
+            res.fail(rule.id, "typed-time-reaches-string-parser::%s" % c.func.id, ctx.loc(norm_q, c),
+                     "a Literal given for a time-valued PROV attribute reaches %s, whose string parser raises a built-in TypeError for it" % norm(c)[:50],
+                     '<prov:time xsi:type="xsd:dateTime">2012-03-02T10:30:00</prov:time> inside <prov:wasGeneratedBy>: loading raises a built-in TypeError (Parser must be a string or character stream, not Literal), not a library error')
+    return res
+
+
+RULES.setdefault("C11", []).append(Rule("C11.R22", "a typed literal given for a time-valued PROV attribute is unwrapped or refused before the string parser", 1, typed_time_rule, "F-NULL",
+                                        "xsi:type on a time element loads as that time, or is refused with a library error - never a built-in TypeError"))
+RULES.setdefault("C05", []).append(Rule("C05.R16", "a typed literal given for a time-valued PROV attribute is unwrapped or refused before the string parser (shared with C11.R22)", 1, typed_time_rule, "F-NULL",
+                                        "time-valued attributes hold datetimes however the value was supplied"))
